@@ -2,5 +2,5 @@
 EXTENDS Settings, Json
 RECURSIVE SetToSeq(_)
 SetToSeq(S) == IF S = {} THEN <<>> ELSE LET x == CHOOSE y \in S : TRUE IN <<x>> \o SetToSeq(S \ {x})
-Emit == CaseOK => PrintT(ToJson([present |-> SetToSeq(Present), chan |-> chan, fname |-> fname]))
+Emit == CaseOK => PrintT(ToJson([present |-> SetToSeq(Present), chan |-> chan, fname |-> fname, ent |-> ent]))
 =============================================================================
